@@ -46,7 +46,7 @@ def cstr(s):
 def clist(items, ty=None):
     items = list(items)
     if not items:
-        return "(@nil %s)" % ty if ty else "[]"
+        return "(@nil (%s))" % ty if ty else "[]"
     return "[" + "; ".join(items) + "]"
 
 
